@@ -17,7 +17,11 @@ RULE = ("one case = a history of create / hand-made recording / save (optionally
         "snapshot; streams: main, readonly, nested (a/full inside a), long (a writable transient cassette - sometimes with a "
         "second writer on its prefix - holds 4-10 recordings, i.e. more than one listing page of the fake client API, when "
         "it is closed), slashes (key prefixes, categories and hand-made ids that begin with '/', are '/', hold '//', end "
-        "in '/' or are empty, next to foreign objects at the places such keys would escape to), 14 fixed scenarios; "
+        "in '/' or are empty, next to foreign objects at the places such keys would escape to), exits (every cassette of the "
+        "case is closed or left as a context manager at the end, the `with` block being left normally, through an Exception "
+        "raised by its body or through an interrupt that is not an Exception), 14 fixed scenarios + 16 fixed-exits (every "
+        "read_only x transient combination x close() / block left normally / through an Exception / through an interrupt, "
+        "on a prefix that holds recordings of a writer); "
         "non-trivial = at least one bucket mutation and at least one of: read-only call, close of a "
         "transient cassette, interrupted save; distinct = distinct case")
 ASSUMPTIONS = ["assertions enabled (no python -O): the read-only guard is an assert statement",
@@ -537,7 +541,7 @@ def search_harder(rng, bad_cases):
 
 MANIFEST = dict(
     design_ref='6/C15',
-    text="Coq theorems over all histories of calls (create, save incl. a crash after each single bucket mutation, get, get_metadata, list, close, context exit) on any number of S3 cassettes (all read_only/transient/prefix combinations) sharing one bucket: read-only cassettes never change bucket or log and refuse create/save; every mutated key lies under root+normalised prefix and nothing outside changes; closing a writable transient cassette removes every key it ever wrote and only keys under its full/ and metadata/ prefixes, leaving cassettes with path-independent prefixes (a vs ab) untouched, other closes are no-ops; after every single mutation of every save every metadata object has a decodable full object (discoverable => fetchable), incl. re-saves. Model tied to /repo on every run: random histories on real S3TapeCassettes over a fake bucket (paging client API) with foreign objects and crash residues, incl. transient cassettes holding several listing pages of recordings when closed and slash-shaped prefixes / categories, comparing outcome kind, mutation log and key set after every call; direct predicate on the implementation's own log/keys plus lookup+fetch through a fresh cassette at every crash point of every save.",
+    text="Coq theorems over all histories of calls (create, save incl. a crash after each single bucket mutation, get, get_metadata, list, close, context exit - on the implementation side normal and through an exception of the block's body, the same call in the model) on any number of S3 cassettes (all read_only/transient/prefix combinations) sharing one bucket: read-only cassettes never change bucket or log and refuse create/save; every mutated key lies under root+normalised prefix and nothing outside changes; closing a writable transient cassette removes every key it ever wrote and only keys under its full/ and metadata/ prefixes, leaving cassettes with path-independent prefixes (a vs ab) untouched, other closes are no-ops; after every single mutation of every save every metadata object has a decodable full object (discoverable => fetchable), incl. re-saves. Model tied to /repo on every run: random histories on real S3TapeCassettes over a fake bucket (paging client API) with foreign objects and crash residues, incl. transient cassettes holding several listing pages of recordings when closed and slash-shaped prefixes / categories, comparing outcome kind, mutation log and key set after every call; direct predicate on the implementation's own log/keys plus lookup+fetch through a fresh cassette at every crash point of every save.",
     note='Trusted: Coq kernel + vm_compute; hand-written model; fake bucket behind the real S3BasicFacade (atomic per-object mutations, crash = refused mutation); zlib/json.loads/quoted-printable are section oracles with round-trip hypotheses (json.loads o json.dumps = id asked on well-formed trees only; all of them theorems for the concrete parser / simple codec / identity zlib: C15_discoverable_complete_concrete has no oracle premise); assertions enabled. Lookup itself is modelled only as a read (C10 owns it).',
     technique='Coq proof (induction over histories, bucket invariants) + history correspondence by vm_compute + crash-point probing',
 )
